@@ -20,7 +20,7 @@ RULE = ("every generator of C02-C08 (all expression forms, joins, groups, unions
 def probes(rnd):
     rows = [{"a": rnd.choice([1, 2, 3]), "s": rnd.choice(["x", "y"]), "arr": [1, [2, 3]], "o": {"k": 1},
              "items": [{"x": 1}, {"x": 2}]} for _ in range(rnd.randint(0, 4))]
-    doc = {"t": rows, "meta": [{"v": 1}]}
+    doc = {"t": rows, "meta": [{"v": 1}], "grid": [[{"k": 1}, {"k": 2}], [], [{"k": 3}]]}
     forms = [
         ("tuple", "SELECT (1, 'a', a + 1) AS v FROM t"),
         ("tuple-col", "SELECT (a, s) AS v FROM t"),
@@ -56,6 +56,22 @@ def probes(rnd):
         ("in-derived-dual", "SELECT a FROM t WHERE a IN (SELECT a FROM (SELECT * FROM dual) z)"),
         ("where-subq-star", "SELECT * FROM t WHERE a IN (SELECT x FROM items)"),
         ("join-star-subq", "SELECT *, (SELECT * FROM dual) AS d FROM t x JOIN t y ON x.a = y.a"),
+        # ASYNC select items in every statement position: the slot must be resolved wherever the row travels
+        ("async-union", "SELECT ASYNC.VF_SLOW('t', a) AS v FROM t UNION ALL SELECT ASYNC.VF_SLOW('t', a + 1) AS v FROM t"),
+        ("async-union-distinct", "SELECT ASYNC.VF_SLOW('t', a) AS v FROM t UNION SELECT a AS v FROM t"),
+        ("async-union-cte", "WITH c AS (SELECT ASYNC.VF_SLOW('t', a) AS v FROM t UNION ALL SELECT a AS v FROM t) SELECT * FROM c"),
+        ("async-derived", "SELECT x.v AS v FROM (SELECT ASYNC.VF_SLOW('t', a) AS v FROM t) x"),
+        ("async-derived-star", "SELECT * FROM (SELECT ASYNC.VF_SLOW('t', a) AS v FROM t) x"),
+        ("async-cte", "WITH c AS (SELECT ASYNC.VF_SLOW('t', a) AS v FROM t) SELECT v FROM c"),
+        ("async-subq", "SELECT a, (SELECT ASYNC.VF_SLOW('t', x) AS v FROM items) AS s FROM t"),
+        ("async-derived-join", "SELECT * FROM (SELECT ASYNC.VF_SLOW('t', a) AS v, a FROM t) x JOIN t y ON x.a = y.a"),
+        ("async-nested-from", "SELECT ASYNC.VF_SLOW('t', k) AS v FROM grid"),
+        ("subq-nested-from", "SELECT k, (SELECT v FROM `<-meta`) AS s FROM grid"),
+        ("cte-name-as-column", "WITH c AS (SELECT a FROM t) SELECT c FROM dual"),
+        ("fuse-subq-dual", "SELECT FUSE((SELECT * FROM dual)) FROM t"),
+        # digests / encodings are functions of their arguments only (not of what was hashed before in this process)
+        ("hash", "SELECT HASH(s, 'sha256') AS h, HASH(a, 'md5') AS m, HASH(s, 'sha1') AS g FROM t"),
+        ("encode", "SELECT ENCODE(s, 'base64') AS e, ENCODE(a, 'hex') AS x FROM t"),
     ]
     out = []
     for tag, sql in forms:
@@ -94,7 +110,9 @@ def explore(chk, rnd, tier):
         extra = probes(rnd) + probes(rnd)
         allc = cases + extra
         first = run_go([go_req(c) for c in allc])
-        second = run_go([go_req(c) for c in allc])
+        # the repetition runs in a fresh process and in the opposite order: whatever survives between calls inside
+        # a process (memo, pooled buffer, cache) then differs between the two evaluations of a case
+        second = list(reversed(run_go([go_req(c) for c in reversed(allc)])))
         for c, a, b in zip(allc, first, second):
             chk.count("runs")
             if (c.get("tag") or "").startswith("probe:"):
